@@ -88,14 +88,14 @@ ExtraSels(g) ==
                SRec(l, st, SAll(SFields(<<a>>, <<SEdge>>))), SRec(l, st, SUnion(<<SMatch, SAll(SAll(SEdge))>>)),
                SRec(l, st, SFields(<<a, b>>, <<SAll(SEdge), SEdge>>))}
               : l \in Limits, st \in Stops(g) \ {-1}}
-CasesPlain ==
+CasesPlain(dummy) ==
   UNION {{[g |-> Graphs[gi], sel |-> s, cfg |-> NoCfg] :
             s \in {x \in Closed(SelDepth, Graphs[gi]) \cup ExtraSels(Graphs[gi]) : Compiles(x, FALSE)}}
          : gi \in MyGraphs}
 
 \* C07 again, under visit-links-once: the same selectors on the graphs that have links (a link that is met first where
 \* the selector does not explore it and later where it does must still be loaded and visited there)
-CasesPlainOnce ==
+CasesPlainOnce(dummy) ==
   UNION {{[g |-> Graphs[gi], sel |-> s, cfg |-> [NoCfg EXCEPT !.once = TRUE]] :
             s \in {x \in Closed(SelDepth, Graphs[gi]) : Compiles(x, FALSE)}}
          : gi \in {x \in MyGraphs : Len(Graphs[x]) >= 2}}
@@ -123,25 +123,25 @@ Cfgs(g) ==
   \cup {[NoCfg EXCEPT !.skip = bs] : bs \in BlockSets(g) \ {{}}}
   \cup {NoCfg}
 
-CasesCtl ==
+CasesCtl(dummy) ==
   UNION {{[g |-> Graphs[gi], sel |-> s, cfg |-> cf] : s \in CtlSels(Graphs[gi]), cf \in Cfgs(Graphs[gi])}
          : gi \in MyGraphs}
 
 \* C15, thorough tier: the controls over a hashed sample of ALL depth-2 selectors
-CasesCtl2 ==
+CasesCtl2(dummy) ==
   UNION {{[g |-> Graphs[gi], sel |-> s, cfg |-> cf] :
             s \in {x \in Closed(2, Graphs[gi]) : SelWeight(x) % 41 = Sample /\ Compiles(x, FALSE)}, cf \in Cfgs(Graphs[gi])}
          : gi \in MyGraphs}
 
 \* subset matchers with every sign combination of the bounds, on their own and under recursion
 SubsetSels == {x \in {SSubset(f, t) : f \in {-9, -3, -1, 0, 1, 2, 5, 9}, t \in {-9, -4, -1, 0, 1, 3, 5, 9}} : Compiles(x, FALSE)}
-CasesSubset ==
+CasesSubset(dummy) ==
   UNION {{[g |-> Graphs[gi], sel |-> s, cfg |-> NoCfg] :
             s \in UNION {{x, SAll(SAll(x)), SRec(-1, -1, SUnion(<<x, SAll(SEdge)>>))} : x \in SubsetSels}}
          : gi \in MyGraphs}
 
 \* depth 3: one more layer over a hashed sample of the depth-2 selectors
-CasesPlain3 ==
+CasesPlain3(dummy) ==
   UNION {{[g |-> Graphs[gi], sel |-> s, cfg |-> NoCfg] :
             s \in {x \in Layer({y \in Closed(2, Graphs[gi]) : SelWeight(y) % 23 = Sample}) : Compiles(x, FALSE)}}
          : gi \in MyGraphs}
